@@ -49,10 +49,11 @@ import common as C
 from gen import reports as R
 
 PROPERTY = "C10"
-LEAN_MODULES = ["LccModel.Props.C10", "LccModel.Props.C10Info", "LccModel.Props.C10Overlap"]
-PROPS_FILES = ["LccModel/Props/C10.lean", "LccModel/Props/C10Info.lean", "LccModel/Props/C10Overlap.lean"]
+LEAN_MODULES = ["LccModel.Props.C10", "LccModel.Props.C10Info", "LccModel.Props.C10Overlap", "LccModel.Props.C10RunDir"]
+PROPS_FILES = ["LccModel/Props/C10.lean", "LccModel/Props/C10Info.lean", "LccModel/Props/C10Overlap.lean",
+               "LccModel/Props/C10RunDir.lean"]
 NAMESPACES = {"LccModel/Props/C10.lean": "LccModel.C10", "LccModel/Props/C10Info.lean": "LccModel.C10",
-              "LccModel/Props/C10Overlap.lean": "LccModel.C10"}
+              "LccModel/Props/C10Overlap.lean": "LccModel.C10", "LccModel/Props/C10RunDir.lean": "LccModel.C10"}
 DRIVER = "drivers/C10.lean"
 TABLE_OPENS = ("LccModel.Saving", "LccModel.Report")
 TRUSTED_BASE = [
@@ -301,7 +302,7 @@ def tables(ctx):
     finally:
         SS.time = saved
     t3 = C.Table("intervalTable", "List ((Nat × Nat × Nat) × Bool)", rows, imports)
-    return [t1, t2, t3, save_option_table()]
+    return [t1, t2, t3, save_option_table(), report_dir_table()]
 
 
 OPTION_VALUES = [None, "", "at_end_of_tests", "at_each_suite", "at_each_test", "at_each_failed_test", "at_each_log", "at_each_event",
@@ -347,6 +348,87 @@ def real_chosen_strategy(cli, env):
         os.environ.pop("LCC_SAVE_REPORT", None)
         if saved is not None:
             os.environ["LCC_SAVE_REPORT"] = saved
+
+
+PATH_STATES = ["missing", "parentMissing", "emptyDir", "filledDir", "file"]
+
+
+def report_dir_table():
+    """T5: what the real `create_report_dir(cli_args, project)` gives back for every combination of `--report-dir` and
+    `$LCC_REPORT_DIR` ∈ {absent, empty string, a path where nothing is / whose parent is missing / an empty directory / a directory
+    holding a report / a regular file} — by executing it (real argparse definitions) in a scratch directory.  `created`: a string,
+    the path given by that source, a directory that did not exist before; `noDir`: anything that is not a path (on the unchanged
+    tree: the exception object, observation O1) or an exception; `project`: the project's `create_report_dir()` was called."""
+    import shutil
+    import tempfile
+    from lemoncheesecake.cli.commands.run import create_report_dir
+    from props._cli import real_parser
+    values = [None, ""] + PATH_STATES
+
+    def lean_given(v):
+        return "none" if v is None else "(some none)" if v == "" else "(some (some RunStart.PathState.%s))" % v
+
+    class _Proj:
+        def __init__(self):
+            self.called = 0
+
+        def create_report_dir(self):
+            self.called += 1
+            return "<project>"
+    rows = []
+    saved = os.environ.pop("LCC_REPORT_DIR", None)
+    try:
+        for cli in values:
+            for env in values:
+                top = tempfile.mkdtemp(prefix="lccverif-c10dir-")
+                try:
+                    paths = {}
+                    for src, v in (("cli", cli), ("env", env)):
+                        if v in (None, ""):
+                            paths[src] = v
+                            continue
+                        path = os.path.join(top, src, "x", "out") if v == "parentMissing" else os.path.join(top, src + "-out")
+                        if v in ("emptyDir", "filledDir"):
+                            os.makedirs(path)
+                        if v == "filledDir":
+                            with open(os.path.join(path, "report.js"), "w") as fh:
+                                fh.write("var reporting_data = {};\n")
+                        if v == "file":
+                            with open(path, "w") as fh:
+                                fh.write("x\n")
+                        paths[src] = path
+                    existed = {src: (p not in (None, "") and os.path.exists(p)) for src, p in paths.items()}
+                    argv = [] if cli is None else ["--report-dir", paths["cli"]]
+                    os.environ.pop("LCC_REPORT_DIR", None)
+                    if env is not None:
+                        os.environ["LCC_REPORT_DIR"] = paths["env"]
+                    proj = _Proj()
+                    try:
+                        got = create_report_dir(real_parser().parse_args(argv), proj)
+                    except Exception as e:
+                        got = e
+                    if proj.called:
+                        out = "(RunStart.DirOutcome.project, RunSeq.Source.project)" if got == "<project>" else "UNEXPECTED_PROJECT_RESULT"
+                    else:
+                        src = next((k for k in ("cli", "env") if isinstance(got, str) and got == paths[k]), None)
+                        if src is not None:
+                            fresh = os.path.isdir(got) and not existed[src] and not os.listdir(got)
+                            out = "(RunStart.DirOutcome.created, RunSeq.Source.%s)" % src if fresh else \
+                                "(RunStart.DirOutcome.REUSED_EXISTING_PATH, RunSeq.Source.%s)" % src
+                        else:
+                            # no path: which source was it about ? the first truthy one
+                            src = "cli" if paths["cli"] else "env"
+                            out = "(RunStart.DirOutcome.noDir, RunSeq.Source.%s)" % src
+                    rows.append(("(%s, %s)" % (lean_given(cli), lean_given(env)), out,
+                                 "--report-dir %r with $LCC_REPORT_DIR=%r -> %s" % (cli, env, out)))
+                finally:
+                    shutil.rmtree(top, ignore_errors=True)
+    finally:
+        os.environ.pop("LCC_REPORT_DIR", None)
+        if saved is not None:
+            os.environ["LCC_REPORT_DIR"] = saved
+    return C.Table("reportDirTable", "List ((RunStart.Given × RunStart.Given) × (RunStart.DirOutcome × RunSeq.Source))", rows,
+                   ("LccModel.Model.Saving", "LccModel.Model.RunStart"))
 
 
 def save_option_table():
@@ -875,6 +957,24 @@ def mutate_stream(events, rng):
 REAL_WILD = ["plain", "non-ascii", "astral", "surrogate", "surrogate", "c0", "cr", "empty", "markup", "quote", "lf", "fffe"]
 
 
+def thread_name_features(spec):
+    """which names the `lcc.Thread` workers of the declared tests carry"""
+    out = set()
+
+    def visit(su):
+        for acts in [t["acts"] for t in su["tests"]] + [su["setup"] or [], su["teardown"] or []]:
+            for a in acts:
+                if a[0] == "threads":
+                    names = a[4] if len(a) > 4 else None
+                    out.add("real-run:lcc.Thread-names=%s" % ("default" if not names else "SAME-for-both-workers" if names[0] == names[1]
+                                                              else "distinct"))
+        for sub in su["subs"]:
+            visit(sub)
+    for su in spec["suites"]:
+        visit(su)
+    return sorted(out)
+
+
 def gen_real_spec(rng, texts="plain"):
     """texts: what the log messages / step names passed to the REAL logging API hold ("plain" | "safe" | "wild");
     a third of the tests and suites get an explicit `name=` (dotted, dashed, …: `gen.reports.gen_node_name`)"""
@@ -901,10 +1001,12 @@ def gen_real_spec(rng, texts="plain"):
                 out.append(["url", "http://x/%d" % rng.randint(0, 9)])
             else:
                 out.append(["raise"])
-        if rng.random() < 0.2:
+        if rng.random() < 0.3:
             # two overlapping `lcc.Thread` workers, both logging (each owns a step), the main thread logging meanwhile
+            # THREAD NAMES are the user's: none (Thread-N), two different ones, or the SAME name for both workers
             out.insert(rng.randint(0, len(out)), ["threads", [text("a%d" % i) or "a" for i in range(rng.randint(1, 3))],
-                                                  [text("b%d" % i) or "b" for i in range(rng.randint(1, 3))], rng.random() < 0.7])
+                                                  [text("b%d" % i) or "b" for i in range(rng.randint(1, 3))], rng.random() < 0.7,
+                                                  rng.choice([None, ["worker", "worker"], ["worker", "worker"], ["w-a", "w-b"]])])
         if with_info and rng.random() < 0.45:
             # the test publishes a report information (few names: reused with other values by other tests)
             out.insert(rng.randint(0, len(out)), ["info", rng.choice(INFO_NAMES), text("v%d" % rng.randint(0, 99)) or "v"])
@@ -961,8 +1063,9 @@ def _build_real_suites(spec):
                         for m in msgs:
                             lcc.log_info(m)
                             _t.sleep(pause)
-                    ta = lcc.Thread(target=worker, args=(a[1], 0.001))
-                    tb = lcc.Thread(target=worker, args=(a[2], 0.004))
+                    names = a[4] if len(a) > 4 and a[4] else [None, None]
+                    ta = lcc.Thread(target=worker, args=(a[1], 0.001), name=names[0])
+                    tb = lcc.Thread(target=worker, args=(a[2], 0.004), name=names[1])
                     ta.start()
                     tb.start()
                     if a[3]:
@@ -1188,7 +1291,7 @@ def save_raised_signature(kind, cls, profile, locale="utf8"):
     return "C10/save-raised/%s/%s" % (kind, cls)
 
 
-def check_sessions(events, handled, failure, sessions, status_after, final_report, nf_of, locale="utf8"):
+def check_sessions(events, handled, failure, sessions, status_after, final_report, nf_of, locale="utf8", real=False):
     """C10 on the observation of one run of the handler loop (a well-formed stream): every saved file loads and is a prefix of
     the final report, a save was seen after every promised event and at the end of the session, no save raised.
     `nf_of(load)` gives the normal form of a loaded snapshot.  Never calls the model."""
@@ -1197,8 +1300,15 @@ def check_sessions(events, handled, failure, sessions, status_after, final_repor
     stopped = failure is not None or handled != len(events)
     if stopped:
         raised = [(s, e) for s in sessions for e in s.get("save_errors", [])]
-        if not raised:
-            # a well-formed stream made a handler other than a save raise: not this property's business (C07/C11) — but
+        if not raised and real:
+            # the stream is what a REAL run fired (nothing of it is the harness's making) and a handler other than a save raised on
+            # the event-handling thread: the loop is dead — no file is refreshed from here on, nothing is saved at the end of the run
+            fails.append(C.Failure("C10/event-loop-stopped/%s" % failure,
+                                   "a report handler raised %s while handling event %d of a real run (%d events went through): event handling stops "
+                                   "for every backend — the report files are not refreshed any more and not saved at the end of the run"
+                                   % (failure, handled + 1, len(events))))
+        elif not raised:
+            # a well-formed GENERATED stream made a handler other than a save raise: not this property's business (C07/C11) — but
             # the check must not silently lose it: classified as not observable
             raise RuntimeError("handler raised %s after %d/%d events of a well-formed stream" % (failure, handled, len(events)))
         for s, (n_before, cls, msg) in raised:
@@ -1517,7 +1627,7 @@ class Snap(C.Stream):
             return []          # ill-formed streams cannot come out of a run (C07); only the model is compared
         events = self._events(case, obs)
         fails = check_sessions(events, obs["handled"], obs["failure"], list(obs["sessions"]), obs["status_after"], obs["final_report"],
-                               lambda load: _nf(obs, load))
+                               lambda load: _nf(obs, load), real=case["kind"] == "real")
         if obs.get("final_report") and obs["handled"] == len(events) and case["kind"] == "gen":
             fails += step_end_failures(events, obs["final_report"])
         if "every" in obs:      # a handler loop of its own (scripted clock)
@@ -1671,6 +1781,7 @@ class Snap(C.Stream):
                     tids.setdefault(json.dumps(e["loc"], sort_keys=True), set()).add(e["tid"])
             if any(len(v) >= 3 for v in tids.values()):
                 f.append("real-run:lcc.Thread-workers-with-steps-of-their-own")
+            f += thread_name_features(case["spec"])
         if case["kind"] == "real" and case["spec"].get("has_info"):
             f.append("real-run-calls-add_report_info")
             infos_seen = [tuple(map(tuple, _nf(obs, c["load"])["info"])) for s in obs["sessions"] for c in s["copies"] if "nf" in c["load"]]
@@ -2167,6 +2278,16 @@ def _with_text(events, msg):
 
 # minimal witnesses replayed first
 Snap.corpus += [
+    # a REAL run: a test starting two `lcc.Thread` workers that carry the SAME name, the first one ending first, the second one (and
+    # the main thread) logging afterwards — `at_each_log` saves between the two ends: each worker's step must get its own end
+    # (second case: the second worker goes on logging after the first one's end)
+] + [
+    {"kind": "real", "variant": 0, "alias": False, "texts": "plain", "backends": ["json", "xml"],
+     "spec": {"nb_threads": 1, "suites": [{"name": "top0", "subs": [], "setup": None, "teardown": None, "tests": [
+         {"name": "t0", "mode": "run", "acts": [["threads", ["a0"], bmsgs, True, ["worker", "worker"]], ["log", "info", "after"]]},
+         {"name": "t1", "mode": "run", "acts": [["log", "info", "m"]]}]}]}}
+    for bmsgs in (["b0"], ["b0", "b1", "b2"])
+] + [
     # a failing test whose name holds the separator of path strings, in a suite whose name does too (at_each_failed_test must
     # save when it ends); the same with plain names is corpus[0]
     {"kind": "gen", "label": "wf", "nb_threads": 1, "variant": 0, "alias": False, "every": 1, "every_backend": "json",
